@@ -1,5 +1,6 @@
 DOUBLES = 'doubles treated as mathematical reals; opm2c translation; CBMC/z3 soundness; library stubs and axioms listed in evidence.trusted_base'
 CHECKS = {
+ 'C02': {'text': 'the 12 static conversion tables of UnitSystem.cpp (46 measures x 4 systems): to/from rows mutually inverse, offsets, every base row equal to the physical size of the unit (SI/NIST definitions written independently in the spec), every composite row equal to its dimensional law over the base rows; every constant of Opm::unit/prefix equals its definition; to_si/from_si are the affine maps over those tables and are mutually inverse for every measure and every real value; the string-keyed dimension table set up by initMETRIC/FIELD/LAB/PVT_M agrees with the measure table. Exact over the rationals. NOT decided: keyword-JSON dimension annotations, parse() of composite dimension strings, whole-deck re-expression in another unit system.', 'note': 'spec data from external definitions; ' + DOUBLES},
  'C07': {'text': 'PARTIAL: size arithmetic of Eclipse arrays (sizeOnDiskBinary/Formatted, block size tables) equals the published layout for every n and type, proved over mathematical integers with a bit-precise overflow/conversion safety run. NOT decided: decimal text of REAL/DOUB.', 'note': 'spec constants written from the published layout; ' + DOUBLES},
  'C16': {'text': 'every operator and math function of Evaluation<double,N> (N=1..12 and the generic N=13), value and every derivative slot, equals the chain rule over the reals; binary operators verified against the compound-assignment contracts. NOT decided: IEEE rounding, the dynamically sized variant.', 'note': DOUBLES},
 }
@@ -9,4 +10,4 @@ NOT_APPLICABLE = [
  {'property_id': 'C04', 'reason': NA},
  {'property_id': 'C05', 'reason': NA + '; the file layer is claimed under C07/C08 and unit inversion under C02'},
 ] + [{'property_id': p, 'reason': 'not built yet (planned, see DESIGN.md section 3)'} for p in
-     ['C01','C02','C06','C08','C09','C10','C11','C12','C13','C14','C15','C17','C18','C19','C20']]
+     ['C01','C06','C08','C09','C10','C11','C12','C13','C14','C15','C17','C18','C19','C20']]
